@@ -3,7 +3,7 @@ engine's bookkeeping and the published composite, and hands the view-expiry flag
 from pyvc.spec import contract, external, ghost, bound_types
 import pyvc.spec as _S
 from specs.lib_path import *   # noqa: F401,F403
-from specs.c_engine import PREFIX
+from specs.c_engine import PREFIX, FRONT_SHRINKS
 
 E = 'vivarium.core.engine:'
 ST = 'vivarium.core.store:'
@@ -111,7 +111,7 @@ def REP(i):
     return 'self.state.g_report[%d]' % i
 
 
-FULL_FRAME = ['self.process_paths', 'self._step_paths', 'self.g_version', 'self.g_views_valid', 'self.processes', 'self.steps',
+FULL_FRAME = ['self.front', 'self.process_paths', 'self._step_paths', 'self.g_version', 'self.g_views_valid', 'self.processes', 'self.steps',
               'self.topology', 'self.flow', 'Store.value', 'Store.inner', 'Store.outer', 'Store.topology',
               'Store.topology_view', 'Store.g_report', 'Process.g_pending', '_StepGraph._sequential_steps', '_StepGraph.g_deps',
               '_StepGraph.g_seq']
@@ -153,7 +153,9 @@ COMMON = dict(
              5: {'invariant': ['is_node(self.steps)', 'self.steps == pfoldr(entry(self.steps), %s, _i)' % REP(2),
                                'forall_range(0, _i, lambda i: implies(not exists_range(0, len(%s), lambda j: %s[j][0] == %s[i][0]), '
                                'has(self._step_graph.g_seq, %s[i][0])))' % (REP(3), REP(3), REP(2), REP(2))]},
-             6: {'invariant': ['self.topology == dfold(entry(self.topology), deletions, _i)',
+             6: {'invariant': ["forall(lambda p: implies(has(self.front, p), has(entry(self.front), p) and "
+                               "lookup(self.front, p) == lookup(entry(self.front), p)))",
+                               'self.topology == dfold(entry(self.topology), deletions, _i)',
                                'self.flow == dfold(entry(self.flow), deletions, _i)',
                                'self.processes == dfold(entry(self.processes), deletions, _i)',
                                'self.steps == dfold(entry(self.steps), deletions, _i)',
@@ -165,6 +167,7 @@ COMMON = dict(
 contract(E + 'Engine.apply_update', props=['C07', 'C01', 'C04', 'C05', 'C10'],
          ensures=['self.g_version >= old(self.g_version)',
                   'self.g_views_valid == (old(self.g_views_valid) and not ret)',
+                  FRONT_SHRINKS,
                   # an empty update is a no-op that never expires the views; otherwise the flag of the Store is handed through
                   'implies(not update, not ret and self.process_paths == old(self.process_paths) and '
                   'self._step_paths == old(self._step_paths))',
